@@ -11,7 +11,8 @@ TRANSLATORS = [t1_operators.translate]
 PROPERTY_FILE = 'Properties/C03.v'
 THEOREMS = ['C03_remove_redundant_gates', 'C03_remove_redundant_gates_inputs', 'C03_merge_unary_operators',
             'C03_merge_duplicate_gates', 'C03_merge_equivalent_gates', 'C03_pipeline', 'C03_cleanup',
-            'C03_rebuild_with_remap', 'C03_pipeline_truth_table', 'C03_cleanup_truth_table',
+            'C03_rebuild_with_remap', 'C03_pipeline_truth_table', 'C03_pipeline_truth_table_returns', 'C03_pipeline_evaluate',
+            'C03_cleanup_truth_table', 'C03_cleanup_truth_table_returns', 'C03_cleanup_evaluate',
             'C03_remove_redundant_gates_total', 'C03_merge_unary_operators_total', 'C03_merge_duplicate_gates_total',
             'C03_merge_equivalent_gates_total', 'C03_pipeline_total', 'C03_cleanup_total',
             'C03_merge_equivalent_gates_three_valued_refuted', 'C03_merge_unary_operators_arity_needed',
@@ -26,18 +27,19 @@ LEVEL_TEXT = ('every clause of the property is a Coq theorem about the executabl
               'matter), the same number of outputs, the same value at every output position under every three-valued '
               'assignment (MergeEquivalentGates and pipelines containing it: under every total assignment, i.e. an '
               'identical truth table - shown to be the best possible by a refutation of the three-valued statement), an '
-              'equal get_truth_table when inputs are kept, and no more gates than the argument; in addition the passes and '
+              'equal get_truth_table result when inputs are kept (equality of the two results, and both calls return; likewise '
+              'evaluate on every Boolean vector), and no more gates than the argument; in addition the passes and '
               'all pipelines are total (never raise) on such circuits. "The argument is not modified" holds by construction '
               'in the immutable model and is checked on the implementation by the harness (dump before/after). The '
               'hand-written model is tied to /repo on every run by comparing the complete output circuit (gate order, '
               'labels, operands, users, inputs, outputs) of every pass and of random pipelines on generated circuits')
 LEVEL_NOTE = ('Coq kernel + vm_compute; hand-written model of the passes and of transformer.py (Model/Passes.v), of the '
-              'traversals (C20 theorems are used for the emission order) and of evaluation (C01 soundness is used for '
+              'traversals (C20 theorems are used for the emission order) and of evaluation (C01 soundness and completeness are used for '
               'MergeEquivalentGates and get_truth_table); correspondence harness. Hypotheses: WF c (the C02 invariant) and '
               'arity_ok c (every non-INPUT gate has an operand count its operator accepts; without it evaluation raises and '
               'MergeUnaryOperators can turn a non-evaluable circuit into an evaluable one: C03_merge_unary_operators_arity_'
-              'needed). Semantics = the relational three-valued Eval of C01; the executable get_truth_table statement is '
-              'conditional on both calls returning. Circuits with blocks: the passes drop blocks (model and implementation), '
+              'needed). Semantics = the relational three-valued Eval of C01; the executable get_truth_table / evaluate '
+              'statements are equalities of results, unconditional (completeness of the evaluators, C01). Circuits with blocks: the passes drop blocks (model and implementation), '
               'which the property does not mention')
 TECHNIQUE = ('Coq proof: one generic rebuild-with-remap lemma (rank induction on the rebuilt circuit) instantiated per pass '
              'with a fold invariant (identity / parity-parent dictionaries / first gate with the same canonical signature / '
